@@ -7,7 +7,7 @@ from execworld import World
 import execreplay
 
 FLAGS = ["cc", "cs", "sc", "ss", "mc", "ms"]
-QUICK = ["MC_sched_q_%s.cfg" % f for f in FLAGS] + ["MC_sched_f_%s.cfg" % f for f in FLAGS] + ["MC_sched_f2_cc.cfg", "MC_sched_f2_mc.cfg", "MC_sched_a_cc.cfg", "MC_sched_a_ms.cfg"]
+QUICK = ["MC_sched_q_%s.cfg" % f for f in FLAGS] + ["MC_sched_f_%s.cfg" % f for f in FLAGS] + ["MC_sched_f2_cc.cfg", "MC_sched_f2_mc.cfg", "MC_sched_a_cc.cfg", "MC_sched_a_ms.cfg", "MC_sched_p_cc.cfg", "MC_sched_p_ss.cfg"]
 THOROUGH = QUICK
 SERIAL = False
 PID = "C08"
